@@ -66,7 +66,10 @@ KClass(i) ==
     [] i = 39 -> [k |-> "tc_empty", p |-> "l_ok", tc |-> "tc_empty", crl |-> "crl_full"]
     [] i = 40 -> [k |-> "tc_garbage", p |-> "l_ok", tc |-> "tc_garbage", crl |-> "crl_full"]
     [] i = 41 -> [k |-> "trust_all", p |-> "l_x", tc |-> "tc_all", crl |-> "crl_norev"]
-NK == 41
+    [] i = 42 -> [k |-> "name_w3", p |-> "l_name_w3", tc |-> "tc_A", crl |-> "crl_full"]
+    [] i = 43 -> [k |-> "name_wild_san", p |-> "l_name_wild", tc |-> "tc_A", crl |-> "crl_full"]
+    [] i = 44 -> [k |-> "name_wild_cn", p |-> "l_name_wcn", tc |-> "tc_A", crl |-> "crl_full"]
+NK == 44
 \* the classes that discriminate one policy attribute each (placement product)
 KRel == {1, 6, 12, 17, 33}
 \* absent files cannot be given by value
@@ -189,25 +192,26 @@ InitP(c) == \E a1 \in 0..2, a2 \in 0..2, t1 \in 0..2, t2 \in 0..2, c1 \in 0..2, 
 
 \* N: subject names: where tls.peer_names is written and what it says, against every name class
 NamePlansS == <<<<"good", "-">>, <<"bad", "-">>, <<"multi", "-">>, <<"-", "good">>, <<"-", "bad">>, <<"-", "multi">>,
-                <<"bad", "good">>, <<"good", "bad">>, <<"-", "-">>, <<"empty", "-">>, <<"good", "empty">>>>
+                <<"bad", "good">>, <<"good", "bad">>, <<"-", "-">>, <<"empty", "-">>, <<"good", "empty">>, <<"w3", "-">>, <<"-", "w3">>>>
 NamePlansC == <<<<"good", "ip">>, <<"bad", "ip">>, <<"multi", "ip">>, <<"-", "name">>, <<"good", "name">>,
-                <<"bad", "name">>, <<"-", "ip">>, <<"empty", "ip">>, <<"empty", "name">>>>
-KNames == <<1, 30, 31, 32, 33, 36, 37>>
+                <<"bad", "name">>, <<"-", "ip">>, <<"empty", "ip">>, <<"empty", "name">>, <<"w3", "ip">>>>
+KNames == <<1, 30, 31, 32, 33, 36, 37, 42, 43, 44>>
+NKN == 10
 VpnPlansS == <<<<"T", "-">>, <<"-", "T">>, <<"F", "T">>>>      \* tls.verify_peer_name in the server / accept map
 NCellS(np, vp, ki, tp, r) ==
-  LET n == 3000000 + ((((np - 1) * 3 + (vp - 1)) * 7 + (ki - 1)) * 3 + TpIdx(tp)) * 2 + r
+  LET n == 3000000 + ((((np - 1) * 3 + (vp - 1)) * NKN + (ki - 1)) * 3 + TpIdx(tp)) * 2 + r
       pl == NamePlansS[np]
       srvpol == [Pol4 EXCEPT !.vpn = VpnPlansS[vp][1]]
       accpol == [Pol4 EXCEPT !.vpn = VpnPlansS[vp][2]]
   IN SubjectS(tp, IF r = 0 THEN "normal" ELSE "revS", srvpol, accpol, KNames[ki], "f", "f", FALSE, pl[1], pl[2], "open", n, "N",
-              tp = "tls" /\ r = 0 /\ vp = 1 /\ ki \in {1, 5})
+              tp = "tls" /\ r = 0 /\ vp = 1 /\ (ki \in {1, 5} \/ (pl[1] = "w3" /\ ki \in {8, 9, 10})))
 NCellC(np, ki, tp, r) ==
-  LET n == 3500000 + (((np - 1) * 7 + (ki - 1)) * 3 + TpIdx(tp)) * 2 + r
+  LET n == 3500000 + (((np - 1) * NKN + (ki - 1)) * 3 + TpIdx(tp)) * 2 + r
       pl == NamePlansC[np]
   IN SubjectC(tp, IF r = 0 THEN "normal" ELSE "revS", [Pol4 EXCEPT !.vpn = "T"], KNames[ki], "f", pl[1], pl[2], "open", n, "N",
-              tp = "tls" /\ r = 0 /\ ki \in {1, 5})
-InitN(c) == \/ \E np \in 1..Len(NamePlansS), vp \in 1..3, ki \in 1..7, tp \in Transports, r \in 0..1 : c = NCellS(np, vp, ki, tp, r)
-            \/ \E np \in 1..Len(NamePlansC), ki \in 1..7, tp \in Transports, r \in 0..1 : c = NCellC(np, ki, tp, r)
+              tp = "tls" /\ r = 0 /\ (ki \in {1, 5} \/ (pl[1] = "w3" /\ ki \in {8, 9, 10})))
+InitN(c) == \/ \E np \in 1..Len(NamePlansS), vp \in 1..3, ki \in 1..NKN, tp \in Transports, r \in 0..1 : c = NCellS(np, vp, ki, tp, r)
+            \/ \E np \in 1..Len(NamePlansC), ki \in 1..NKN, tp \in Transports, r \in 0..1 : c = NCellC(np, ki, tp, r)
 
 \* M: material overridden by the accept map (by file over by file, by value over by file, ...): the server map
 \*    trusts everything and revokes nothing, the accept map carries the real trust anchors and CRLs
